@@ -141,6 +141,9 @@ func runC17(env *core.Env) {
 	for _, n := range []int{65535, 65536, 65537, 131072, 300000} {
 		texts = append(texts, strings.Repeat("a", n), strings.Repeat("\u65e5", n/3), strings.Repeat("a ", n/2)+"z", strings.Repeat("\u00e9\n", n/3)+"z")
 	}
+	// around the 10 MiB line limit of the log format: just below it the text must round-trip, above it the
+	// command must refuse and write nothing (the store must stay readable either way)
+	huge := []string{strings.Repeat("b", 10*1024*1024-600), strings.Repeat("b", 10*1024*1024+1)}
 	type combo struct{ path, mode string }
 	combos := []combo{{"new-task", "json"}, {"new-task", "flags"}, {"new-task", "bodystdin"}, {"new-epic", "json"}, {"new-epic", "flags"}, {"new-epic", "bodystdin"},
 		{"set", "json"}, {"set", "flags"}, {"set", "bodystdin"}, {"plan-epic", "json"}, {"plan-task", "json"}}
@@ -156,6 +159,11 @@ func runC17(env *core.Env) {
 				}
 				cases = append(cases, c17Case{Field: f, Path: cb.path, Mode: cb.mode, Text: t})
 			}
+		}
+	}
+	for _, t := range huge {
+		for _, cb := range []combo{{"new-task", "json"}, {"new-task", "bodystdin"}, {"set", "json"}, {"set", "bodystdin"}} {
+			cases = append(cases, c17Case{Field: "body", Path: cb.path, Mode: cb.mode, Text: t})
 		}
 	}
 	conf := newConformer(len(cases)/280+1, 300)
@@ -181,6 +189,7 @@ func runC17(env *core.Env) {
 			conf.offer(w.Proj, base, req, res)
 		}
 		wantOK, want := c.expected()
+		tooLong := len(c.Text) > 10*1024*1024-400 // cannot fit a 10 MiB event line: refusing is the only correct answer
 		bad := func(kind, detail string, as ...Assert) {
 			report(env, fmt.Sprintf("C17 kind=%s field=%s via=%s/%s", kind, c.Field, c.Path, c.Mode), c.String()+": "+detail, mkTrace(base, kind, []core.Req{req}, as...))
 		}
@@ -192,8 +201,11 @@ func runC17(env *core.Env) {
 		after, _ := core.Snapshot(w.Proj)
 		if res.Exit != 0 {
 			atomic.AddInt64(&rejected, 1)
-			if wantOK {
+			if wantOK && !tooLong {
 				bad("valid-text-rejected", clipS(string(res.Err), 200), Assert{Kind: "exit_nonzero", Step: 1})
+			}
+			if r := w.Run(core.R(w.Proj, "--json", "list", "--all")); r.Exit != 0 {
+				bad("store-unreadable-after-rejected-text", clipS(string(r.Err), 200), Assert{Kind: "exit_nonzero", Step: 1}, Assert{Kind: "read_fails", Step: 1})
 			}
 			if c10Diff(base, after) != "" {
 				bad("rejected-but-written", c10Diff(base, after), Assert{Kind: "exit_nonzero", Step: 1}, Assert{Kind: "log_differs", Step: 1, Other: 0})
